@@ -30,9 +30,10 @@ DECOS = 'glue.core.decorators'
 def run(ctx):
     ix = ctx.index
     inv = Invalidation(ix)
-    rule_a(ctx, ix, inv)
-    rule_b(ctx, ix, inv)
-    rule_c(ctx, ix)
+    ctx.guard(rule_a, ctx, ix, inv)
+    ctx.guard(rule_b, ctx, ix, inv)
+    ctx.guard(rule_b_hook, ctx, ix, inv)
+    ctx.guard(rule_c, ctx, ix)
 
 
 class Invalidation(object):
@@ -87,6 +88,7 @@ VALUE_MUTATORS = [
     ('glue.core.data.Data', 'update_components', 'component values replaced'),
     ('glue.core.data.Data', 'update_values_from_data', 'component values / shape replaced'),
     ('glue.core.data.Data', 'add_component', 'an existing attribute re-bound to new values'),
+    ('glue.core.data.BaseCartesianData', '_set_externally_derivable_components', 'linked attributes re-derived through other links'),
 ]
 
 
@@ -102,6 +104,9 @@ def _is_value_write(st, selfname):
         if isinstance(t, ast.Subscript) and isinstance(t.value, ast.Attribute) and t.value.attr == '_components' \
                 and isinstance(t.value.value, ast.Name) and t.value.value.id == selfname:
             return 'the component bound to an identifier (%s)' % unparse(t)
+        if isinstance(t, ast.Attribute) and t.attr == '_externally_derivable_components' and isinstance(t.value, ast.Name) \
+                and t.value.id == selfname:
+            return 'the links through which foreign attributes are derived'
     return None
 
 
@@ -185,9 +190,18 @@ def rule_b(ctx, ix, inv):
             '_roi': roi.subclasses()}
     ea = EffectAnalyzer(ix, deep_families=deep)
     clear_names = inv.names()
+    memo_classes = [c for c in fam_states if c.resolve_func('to_mask') is not None
+                    and MEMOIZE in c.resolve_func('to_mask').decorators]
+    if len(memo_classes) < 5:
+        raise AnalysisError('only %d selection classes with a memoised to_mask found' % len(memo_classes))
+    # every selection can be nested inside a memoised composite (CompositeSubsetState, InvertState, MultiOrState hold
+    # arbitrary children), so the mutators of *all* selection classes are obliged, not only those of memoised ones
+    nests = any(c.name in ('CompositeSubsetState', 'MultiOrState') for c in memo_classes)
     for c in fam_states:
         tm = c.resolve_func('to_mask')
-        if tm is None or MEMOIZE not in tm.decorators:
+        if tm is None:
+            continue
+        if MEMOIZE not in tm.decorators and not nests:
             continue
         reads = {base_field(r) for r in ea.func_effects(c, tm).reads}
         seen = set()
@@ -213,11 +227,39 @@ def rule_b(ctx, ix, inv):
                         continue
                     cleared = any(q.rpartition('.')[2] in clear_names for q, _ in eff.ext_calls)
                     ctx.ob(R, '%s.%s' % (fn.cls.construct, fn.name) + (' (setter)' if 'setter' in label else ''),
-                           '%s of %s changes %s, which the memoised to_mask reads, and invalidates' % (label, c.name, hit),
+                           '%s of %s changes %s, which its to_mask (memoised itself or through an enclosing composite) reads, and invalidates' % (label, c.name, hit),
                            cleared,
-                           detail="%s (%s) changes field(s) %s that the memoised %s reads, and reaches no "
-                                  'cache invalidation: masks evaluated before the change are returned afterwards'
+                           detail="%s (%s) changes field(s) %s that %s reads, and reaches no "
+                                  'cache invalidation: masks evaluated before the change (its own if memoised, or those of a '
+                                  'composite selection that contains it) are returned afterwards'
                                   % (fn.construct, label, hit, tm.construct), where=where(fn))
+
+
+def rule_b_hook(ctx, ix, inv):
+    """The attribute hook that covers plain re-assignments: its invalidation may only depend on "was this attribute set before"."""
+    R = 'C05.b'
+    base = ix.cls('glue.core.subset.SubsetState')
+    m = base.resolve('__setattr__')
+    if m is None or m.func is None:
+        return
+    f = m.func
+    from ..util import guard_chain
+    pm = parent_map(f.node)
+    name_p, value_p = f.params[1], f.params[2]
+    clears = [c for c in calls_in(f.node) if inv.classify_call(f.module, c)]
+    if not clears:
+        return
+    for c in clears:
+        gs = [g for g, br in guard_chain(pm, c, f.node) if isinstance(g, ast.If)]
+        bad = [unparse(g.test) for g in gs if any(isinstance(n, ast.Name) and n.id == value_p for n in ast.walk(g.test))]
+        ctx.ob(R, f.construct, 'the hook invalidates on every re-assignment, whatever the new value is', not bad,
+               detail='SubsetState.__setattr__ invalidates only under `%s`, which looks at the assigned value: editing a region / '
+                      'array in place and assigning the same object back (state.roi = roi) keeps the memoised masks' % ' and '.join(bad),
+               where=where(f, c))
+    stores = [c for c in calls_in(f.node) if unparse(c.func) in ('object.__setattr__', 'super().__setattr__')]
+    ok = len(stores) == 1 and not [g for g, br in guard_chain(pm, stores[0], f.node) if isinstance(g, ast.If)]
+    ctx.ob(R, f.construct + ' store', 'the hook always performs the assignment', ok,
+           detail='SubsetState.__setattr__ does not unconditionally store the attribute', where=f.where)
 
 
 # ---------------------------------------------------------------------------------------
